@@ -9,11 +9,13 @@ import (
 	"fmt"
 	"hash/fnv"
 	"os"
+	"reflect"
 	"runtime"
 	"strings"
 	"sync"
 	"testing"
 	"testing/synctest"
+	"unsafe"
 
 	"github.com/elk-language/elk"
 	"github.com/elk-language/elk/env"
@@ -92,14 +94,25 @@ func Pick[T any](r *Rand, xs []T) T { return xs[r.Intn(len(xs))] }
 // ---------------------------------------------------------------- output capture
 
 type SyncBuf struct {
-	mu sync.Mutex
-	b  strings.Builder
+	mu     sync.Mutex
+	b      strings.Builder
+	frozen bool
 }
 
 func (s *SyncBuf) Write(p []byte) (int, error) {
 	s.mu.Lock()
 	defer s.mu.Unlock()
+	if s.frozen {
+		return len(p), nil // the run is over: output of abandoned tasks that are being drained does not count
+	}
 	return s.b.Write(p)
+}
+
+// Freeze makes the buffer ignore further writes.
+func (s *SyncBuf) Freeze() {
+	s.mu.Lock()
+	s.frozen = true
+	s.mu.Unlock()
 }
 func (s *SyncBuf) String() string {
 	s.mu.Lock()
@@ -179,6 +192,8 @@ func Simulate(t *testing.T, cfg simhook.Config, opts SimOpts, body func(e *Env))
 			if cfg.StateHook == nil {
 				cfg.StateHook = stateSketch.add
 			}
+			cfg.OnEnd = func() { out.Freeze() }
+			cfg.DrainUntil = globalLocksIdle
 			s := simhook.NewSched(cfg)
 			s.SetLabelNamer(labelName)
 			simhook.Install(s)
@@ -281,4 +296,27 @@ func stackNow() string {
 	buf := make([]byte, 16<<10)
 	n := runtime.Stack(buf, false)
 	return string(buf[:n])
+}
+
+// globalLocksIdle reports whether the process-global locks of elk (the global
+// symbol table, the Go type map) are free. They are reached through reflection
+// because they are unexported; if a field is renamed the probe says "idle".
+func globalLocksIdle() bool {
+	probe := func(holder any, field string) bool {
+		v := reflect.ValueOf(holder)
+		if v.Kind() != reflect.Pointer || v.IsNil() {
+			return true
+		}
+		f := v.Elem().FieldByName(field)
+		if !f.IsValid() || !f.CanAddr() || f.Type() != reflect.TypeOf(sync.RWMutex{}) {
+			return true
+		}
+		m := (*sync.RWMutex)(unsafe.Pointer(f.UnsafeAddr()))
+		if m.TryLock() {
+			m.Unlock()
+			return true
+		}
+		return false
+	}
+	return probe(value.SymbolTable, "mutex")
 }
